@@ -66,6 +66,7 @@ def startG (ctx : sha512_ctx) : S :=
 
 /-- the 80 unrolled rounds of the generated `sha512_core`, folded: what clang reads is
 `finishG ctx (roundG 79 (… (roundG 0 (startG ctx))))` -/
+set_option maxHeartbeats 2000000 in
 theorem core_eq_rounds (ctx : sha512_ctx) :
     sha512_core ctx = finishG ctx ((List.range 80).foldl (fun s t => roundG t s) (startG ctx)) := by
   unfold sha512_core
